@@ -1,4 +1,5 @@
 import Netconan.Proofs.Total
+import Netconan.Proofs.Classify
 /-!
 # C14 – Anonymization is total: no line content or salt can make it fail
 -/
@@ -17,6 +18,18 @@ theorem line_total (p : Pipeline) (lk : Lookup) (line : List Char)
     (hcls : ∀ sc, p.secrets = some sc → ClassifiesJuniper sc.formats) :
     (∃ r, lineStep p lk line = .ok r) ∨ lineStep p lk line = .error .outOfFuel :=
   lineStep_fine p lk line hcls
+
+/-- the hypothesis of `line_total` is discharged for the format patterns of record: a value with a non-empty
+`$9$` plaintext is classified as `$9$` by the six pinned patterns (symbolic evaluation of the engine; the
+greedy repeat consumes the whole run by induction) -/
+theorem classifies_juniper : ClassifiesJuniper Pinned.Patterns.formatRes := classifiesJuniper_pinned
+
+/-- **Totality without hypotheses** for every pipeline that uses the pinned format patterns (the model of
+record), whatever its pattern groups, salt, options and feature subset. -/
+theorem line_total_pinned (p : Pipeline) (lk : Lookup) (line : List Char)
+    (hfmt : ∀ sc, p.secrets = some sc → sc.formats = Pinned.Patterns.formatRes) :
+    (∃ r, lineStep p lk line = .ok r) ∨ lineStep p lk line = .error .outOfFuel :=
+  lineStep_fine p lk line (fun sc hsc => by rw [hfmt sc hsc]; exact classifiesJuniper_pinned)
 
 /-- `_anonymize_value` never raises: every `$9$` re-encoding succeeds whatever the salt (empty,
 outside the Juniper alphabet, any first character), and the re-decryption of the replacement
